@@ -20,13 +20,18 @@ CLAIMS = {
         technique="bit-provenance abstract interpretation of MessageType::as_u16 / From<u16>; constant and layout queries over MIR (IANA table, big-endian only)",
         text="Bit layouts are decided for all inputs at once by a bit-provenance domain (14-bit type interleaving, both "
              "directions and their composition), type codes against the IANA table, header field ranges writer = reader, "
-             "fixed field layouts and RFC constants. Byte equality with an independent codec for arbitrary values is NOT decided.",
+             "fixed field layouts and RFC constants, header validation (top two bits, cookie), the shared address codec byte by byte (reserved byte zero and never read), RFFU bytes never reaching decoded values, 16-bit list granularity, nested padding placement, must-write coverage of every value encoder. Byte equality with an independent codec for arbitrary values is NOT decided.",
         design="DESIGN.md section 5 C02"),
     "C03": dict(
-        technique="panic-site inventory over the call graph reachable from the untrusted-input entry points, discharged by a dominating-bounds-check dataflow (interval / length lower bounds) or a reviewed per-function budget",
+        technique="panic-site inventory over the call graph reachable from the untrusted-input entry points, discharged by a dominating-bounds-check dataflow (interval / length lower bounds) or a reviewed per-function budget; budget premises proved inductively with a Fourier-Motzkin linear domain over abstract-interpretation paths",
         text="No reachable panic: every MIR assert and every call to a may-panic std function reachable from the decoder, "
              "the client's on_buffer_recv and the reassembler is discharged by a dominating bounds check or counted "
-             "against a reviewed budget keyed by (function, site kind); size clause and loop progress are data-flow facts.",
+             "against a reviewed budget keyed by (function, site kind); size clause and loop progress are data-flow facts. "
+             "The premises of the budget entries in use are decided in the same run: the wire-attribute iterator and the two "
+             "decode loops are proved safe by induction (callee contracts, invariant pos <= len, linear obligations by "
+             "Fourier-Motzkin), the reassembler's sites follow from its class invariant (C16 R16.4), removable characters are "
+             "ASCII, the ErrorCode range invariant holds. Rejected buffers leave client and mechanism state unchanged "
+             "(usability). NOT decided: 'the result depends only on those first bytes'.",
         design="DESIGN.md section 5 C03"),
     "C04": dict(
         technique="path-sensitive abstract interpretation of validate_attribute / verify / validate / decode loop; sibling agreement of resolved HMAC callee",
@@ -93,10 +98,13 @@ CLAIMS = {
              "decode with an independent parser and the MACs verify is NOT decided.",
         design="DESIGN.md section 5 C13"),
     "C14": dict(
-        technique="panic-site inventory from MessageEncoder::encode over all attribute encoders with bounds-check dataflow; narrow-integer arithmetic rule on both overflow-check MIR shapes",
+        technique="panic-site inventory from MessageEncoder::encode over all attribute encoders with bounds-check dataflow; narrow-integer arithmetic rule on both overflow-check MIR shapes; must-write interval coverage of every value encoder",
         text="The encoder is panic-free for any buffer (every index/slice site dominated by a covering bounds check or in the "
-             "reviewed budget); no unchecked u8/u16 arithmetic on lengths; fixed-size encoders check = write = return. "
-             "Untouched tail bytes and byte correctness of fitting messages are NOT decided.",
+             "reviewed budget); no unchecked u8/u16 arithmetic on lengths; fixed-size encoders check = write = return; "
+             "on every Ok(n) path of every attribute-value encoder the written ranges cover [0, n) (must-write coverage, linear "
+             "chaining) and no whole-slice write of unknown extent exists, so the value bytes do not depend on previous buffer "
+             "contents and nothing past the value is written by the value encoders. Byte correctness of fitting messages is NOT "
+             "decided.",
         design="DESIGN.md section 5 C14"),
     "C15": dict(
         technique="expression-tree extraction of RttCalcuator::update/reset by abstract interpretation, compared structurally with RFC 6298; path rules for Karn's rule and the 600 s guard",
